@@ -46,7 +46,7 @@ fn regions() -> Vec<(&'static str, Box<dyn Fn(&mut Rng) -> f64>)> {
 fn check_type<T: Jetty<F = f64> + BesselDual>(tname: &str, ctx: &Ctx, shard: usize, nshards: usize, tindex: u64) -> Acc {
     let mut acc = Acc::new();
     let u = unit_roundoff::<T>();
-    let per = ctx.n(250, 20000);
+    let per = ctx.n(250, 200000);
     let mut idx = 0u64;
     let shape = T::shape((0, 0));
     let b = Basis::new(&shape);
@@ -73,6 +73,7 @@ fn check_type<T: Jetty<F = f64> + BesselDual>(tname: &str, ctx: &Ctx, shard: usi
                         continue;
                     }
                 };
+                ndv_core::evlog::log_unary("C14", tname, *f, &b, &slots, &got, false);
                 let jet = Jet::from_slots(&b, &slots);
                 let (want, tight, _) = model_point(*f, &jet, &b, &bessel_tight(AMP));
                 let in_band = n == 2 && x0 != 0.0 && x0.abs() < 1.0;
